@@ -80,6 +80,9 @@ type pathCtx struct {
 	forks     int
 	violation *Violation
 	knownHit  []string
+
+	panicCaptured bool
+	panicStack    []string
 }
 
 func (p *pathCtx) abort(st pathStatus, format string, args ...any) {
